@@ -168,9 +168,7 @@ def raw_under_logical(node, d, tuples=True):
 
 def choose_branch(node, d, tuples=True, loose=False):
     """The union branch rule of C09; returns (index, datum without hint)."""
-    if tuples and type(d) is tuple:
-        if len(d) != 2:
-            raise NoBranch("tuple of wrong length")
+    if tuples and type(d) is tuple and len(d) == 2:  # any other tuple is a plain sequence
         for i, b in enumerate(node.branches):
             if hint_name(b) == d[0]:
                 return i, d[1]
